@@ -2,7 +2,7 @@
 import ast
 
 from sa.program import src, own_nodes, call_name, parent, kwarg, AnchorMissing
-from sa import guards, poly, exprmodel
+from sa import guards, poly, exprmodel, resolve
 from sa.poly import Rat, Poly
 
 EXPLANATION = (
@@ -270,23 +270,22 @@ def r06_5(ctx):
     f = ctx.prog.func(VF + '.ScalarOperExpr._dx_impl')
     rules = {'+': DX + DY, '-': DX - DY, '*': DX * Y + X * DY, '/': (DX * Y - X * DY) / (Y * Y)}
     seen = set()
-    cur = [s for s in f.node.body if isinstance(s, ast.If)]
-    node = cur[0] if cur else None
-    while isinstance(node, ast.If):
-        t = node.test
-        if isinstance(t, ast.Compare) and src(t.left) == 'self.oper' and isinstance(t.comparators[0], ast.Constant):
-            op = t.comparators[0].value
-            ret = [s for s in node.body if isinstance(s, ast.Return)]
-            if ret and op in rules:
-                seen.add(op)
-                try:
-                    got = _rule_expr(ret[0].value)
-                    ok = (got == rules[op])
-                except poly.NotPolynomial:
-                    ok = None
-                ctx.decide('R06.5', f.qual, "d(x %s y) = %s" % (op, src(ret[0].value)), ok, ret[0],
-                           {'+': 'sum rule', '-': 'difference rule', '*': 'product rule', '/': 'quotient rule (x\'y - x y\')/y^2'}[op])
-        node = node.orelse[0] if len(node.orelse) == 1 and isinstance(node.orelse[0], ast.If) else None
+    # the dispatch on self.oper is EVALUATED for each operator (order of the branches, `in (...)` tests, merged branches and
+    # early returns do not matter): the statements that remain must return the rule of that operator
+    for op in ('+', '-', '*', '/'):
+        live = guards.specialise(f.node.body, {'self.oper': op})
+        ret = [s_ for s_ in live if isinstance(s_, ast.Return)]
+        if not ret or any(isinstance(s_, ast.If) and 'self.oper' in src(s_.test) for s_ in live):
+            ctx.undecided('R06.5', f.qual, "d(x %s y)" % op, f.node, 'dispatch on self.oper not decided')
+            continue
+        seen.add(op)
+        try:
+            got = _rule_expr(resolve.expand(ret[0].value, ret[0]))
+            ok = (got == rules[op])
+        except poly.NotPolynomial:
+            ok = None
+        ctx.decide('R06.5', f.qual, "d(x %s y) = %s" % (op, src(ret[0].value)), ok, ret[0],
+                   {'+': 'sum rule', '-': 'difference rule', '*': 'product rule', '/': 'quotient rule (x\'y - x y\')/y^2'}[op], definite=True)
     ctx.floor('R06.5', 'differentiation rules of ScalarOperExpr', len(seen), 4)
     # fold_constants
     fc = ctx.prog.func(VF + '.ScalarOperExpr.fold_constants')
@@ -553,7 +552,33 @@ def r06_10(ctx):
                    '-- and any sub-expression the caller reuses in a later add() -- becomes this component\'s instance' % src(c.args[0]), definite=True)
 
 
+def r06_11(ctx):
+    """indices_to_D counts how often each direction occurs in the index list (a derivative d^2/dt^2 is the index t twice).  The
+    count is accumulated index by index (a loop with D[i] += 1, np.add.at, bincount, Counter); `D[list_of_indices] += 1` with a
+    fancy index increments a repeated position ONCE (numpy buffers the read), so (0, 2, 2) becomes (1, 0, 1)."""
+    f = ctx.prog.func(VF + '.VForm.indices_to_D')
+    aug = [a for a in ast.walk(f.node) if isinstance(a, ast.AugAssign) and isinstance(a.target, ast.Subscript)]
+    t = src(f.node).replace(' ', '')
+    if 'np.add.at(' in t or 'bincount(' in t or 'Counter(' in t or '.count(' in t:
+        ctx.met('R06.11', f.qual, 'multiplicities counted by a library routine', f.node)
+        return
+    if not aug:
+        ctx.undecided('R06.11', f.qual, 'accumulation of the derivative orders', f.node, 'not recognised')
+        return
+    for a in aug:
+        idx = a.target.slice
+        lp = guards.in_loop(a, f.node)
+        scalar = isinstance(idx, ast.Name) and lp is not None and isinstance(lp, ast.For) and idx.id in {x.id for x in ast.walk(lp.target) if isinstance(x, ast.Name)}
+        fancy = any(isinstance(x, ast.Name) and x.id == 'indices' for x in ast.walk(resolve.expand(idx, a))) or isinstance(idx, (ast.List, ast.Call))
+        ctx.decide('R06.11', f.qual, src(a), True if scalar else (False if fancy else None), a,
+                   'one increment per occurrence' if scalar else
+                   'augmented assignment through a fancy index: numpy reads D[idx], adds, and writes back -- a repeated index is incremented once. '
+                   'A space derivative with two time derivatives (indices (0, 2, 2)) is rewritten as order (1, 0, 1): space-time forms with '
+                   'grad(u).dt(2) assemble the wrong operator', definite=True)
+
+
 def run(ctx):
+    r06_11(ctx)
     r06_10(ctx)
     r06_9(ctx)
     r06_7(ctx)
